@@ -52,7 +52,7 @@ if os.path.exists(extra):
 rows = []
 for (pid, n), (what, needs, caught, missed) in sorted(M.items()):
     # round 1: <id>-1/-2 (/tmp/seed), round 2: -3/-4 (/tmp/seed2), round 3: -5/-6 (/tmp/seed4), round 4: -7/-8 (/tmp/seed5)
-    root, k = ["/tmp/seed", "/tmp/seed2", "/tmp/seed4", "/tmp/seed5"][(n - 1) // 2], (n - 1) % 2 + 1
+    root, k = ["/tmp/seed", "/tmp/seed2", "/tmp/seed4", "/tmp/seed5", "/tmp/seed6"][(n - 1) // 2], (n - 1) % 2 + 1
     src = f"{root}/{pid}/_out"
     d = f"/verif/seeded/{pid}-{n}"
     resf = f"{root}/results/{pid}_{k}.json"
